@@ -390,6 +390,8 @@ def op_strategy():
         st.none(),
         st.none(),
         st.builds(lambda r, k: f"{r}_{k}", st.sampled_from(RULES), st.integers(1, 6)),
+        # multi-digit and boundary numbers (9 -> 10, 99 -> 100): ids a counter-based generator reaches late
+        st.builds(lambda r, k: f"{r}_{k}", st.sampled_from(RULES), st.sampled_from([2, 3, 8, 9, 10, 11, 12, 13, 99, 100, 101])),
         st.sampled_from(["x", "y", "e1"]),
     )
     return st.one_of(
